@@ -38,6 +38,13 @@ def run(ctx, replay=None):
         if rc != 0:
             ctx.report('schedule', {'scenario': 'contend', 'observed': 'lock-never-released'}, 'contention scenario: ' + line[:200],
                        {'cmd': 'h_conc contend', 'output': (o + er).decode('latin1')[-1500:]})
+        rc, o, er = ctx.run([exe, 'nested'], timeout=120)
+        ctx.cov['evaluations'] += 1
+        line = (o.decode('latin1').strip().splitlines() or ['(no output, exit %s)' % rc])[-1]
+        ctx.cov['nested_scenario'] = line
+        if rc != 0:
+            ctx.report('schedule', {'scenario': 'nested', 'observed': 'caller-lock-released-by-inner-operation'}, 'nested-use scenario: ' + line[:200],
+                       {'cmd': 'h_conc nested', 'output': (o + er).decode('latin1')[-1500:]})
     ctx.sample({'functions_checked': names[:12]})
     ctx.cov['functions'] = len(names)
     ctx.cov['rejected'] = rejected
